@@ -38,7 +38,8 @@ func list(name string, keys []string, ch ...*SNode) *SNode {
 func leaf(name, typ string) *SNode { return &SNode{Name: name, Kind: 2, Type: typ} }
 
 // Schema is the synthetic model: containers three deep, single- and two-key lists, a nested list, sibling names that are
-// textual prefixes of each other (leaf1a/leaf1ab, cont2a/cont2ab, list2a/list2ab), several leaf types.
+// textual prefixes of each other (leaf1a/leaf1ab, cont2a/cont2ab, list2a/list2ab), leaf names that recur at two depths
+// beneath plain containers (leaf2b, leaf1a), several leaf types.
 var Schema = cont("",
 	cont("cont1a",
 		leaf("leaf1a", "s"),
@@ -46,9 +47,9 @@ var Schema = cont("",
 		cont("cont2a",
 			leaf("leaf2a", "u8"),
 			leaf("leaf2b", "s"),
-			cont("cont3a", leaf("leaf3a", "s"), leaf("leaf3b", "u32")),
+			cont("cont3a", leaf("leaf3a", "s"), leaf("leaf3b", "u32"), leaf("leaf2b", "s")), // leaf2b recurs one level down (wave 6)
 		),
-		cont("cont2ab", leaf("leaf2c", "s")),
+		cont("cont2ab", leaf("leaf2c", "s"), leaf("leaf1a", "s")), // so does leaf1a: a `*` element must not span levels
 		list("list2a", []string{"name"},
 			leaf("name", "s"),
 			leaf("tx-power", "u16"),
